@@ -13,9 +13,10 @@ Obligations
                         latest message in between.  Oracle from the statement:
                           - failed exactly at the first call at which stamp - start >= timeout (timeout > 0);
                             timeout 0 never fails;
-                          - at most one retransmit per call, of the latest message, exactly when the redo
-                            interval has elapsed (interval counted from the last (re)transmission time or on
-                            the no-time-lost grid: both accepted, see ASSUMPTIONS);
+                          - at most one retransmit per call, of the latest message, at a call iff at least one
+                            redo interval has passed since the previous retransmission (or the start); call
+                            stamps are arbitrary non-decreasing instants (equal consecutive stamps, calls that
+                            land strictly after a deadline, steps larger than the interval);
                           - nothing is checked once the exchange is finished.
   routes: `args` (settings through the constructor), `class` (settings through the class
   attributes Timeout / RedoTimeout of a subclass), `defaults` (no settings: 2.0 / 0.5).
@@ -32,7 +33,7 @@ FUNCTIONS = ["ioflo.aio.proto.exchanging.Exchange.__init__", "Exchange.process",
              "ioflo.aid.timing.StoreTimer.{__init__,restart,getExpired}"]
 TECHNIQUE = "E1: symbolic execution of the real Exchange/Exchanger over a recording stack double; stamps, timeout and redo timeout symbolic integers"
 LEVEL_TEXT = "bounded model checking: constructor grid {absent,given}^2 x [0,8]^2; schedules of 4/6 process() calls (3/4 with new messages) with symbolic advances in [0,40], settings in [0,64]"
-LEVEL_NOTE = "exact-time regime; redo interval accepted on either reference (last retransmission or no-time-lost grid)"
+LEVEL_NOTE = "exact-time regime; redo interval counted from the previous retransmission (or the start of the timers)"
 ASSUMPTIONS = [
     "stack is a double (name, stamper, transmit recorder); device is a double (name, ha); stamper is a real Stamper whose .stamp is assigned integers",
     "exact-time regime: stamps, timeout and redo timeout are integers (class defaults 2.0 / 0.5 are dyadic floats, exact); "
@@ -40,8 +41,9 @@ ASSUMPTIONS = [
     "`round` is shadowed in ioflo.aio.proto.exchanging by a stub returning 0: it is only used inside console log messages, "
     "whose formatting would realise the symbolic stamp",
     "stamps never decrease between calls (store time); advances are symbolic in [0, DMAX]",
-    "redo interval: after a late process() call both 'next interval counted from that retransmission' (the code) and "
-    "'next interval on the no-time-lost grid' are accepted; a redo timeout of 0 is not checked (statement silent)",
+    "redo interval: a retransmission is due at a process() call iff stamp - (stamp of the previous retransmission by process(), "
+    "else of the start of the timers) >= redo timeout; a catch-up on a fixed grid after a late call is a violation; "
+    "a redo timeout of 0 is not checked (statement silent)",
     "on the call at which the exchange fails, whether a retransmit also happened is not checked; nothing is checked after finish",
     "messages are opaque objects compared by identity",
 ]
@@ -159,7 +161,8 @@ def h_sched(sym, kind, route, N, resend):
         t_start = c0           # base Exchange: timers run from construction
     sym.check(not ex.done and not ex.failed, "C38/start/flags")
     latest = m0
-    cands = [t_start]          # acceptable reference times of the running redo interval
+    ref = t_start              # stamp of the previous retransmission by process(), else of the start of the timers
+    prev_call = None
     for k in range(N):
         if resend and k > 0 and sym.bool("resend%d" % k):
             sym.cover("new-latest-message")
@@ -187,24 +190,18 @@ def h_sched(sym, kind, route, N, resend):
         if sent:
             sym.check(stack.tx[-1] is latest, "C38/process/retransmit-not-latest-message")
         if rt > 0:
-            new = []
-            for c in cands:
-                due = (now - c >= rt)
-                if due and sent:
-                    for x in (now, c + rt):
-                        if not any(x == y for y in new):
-                            new.append(x)
-                elif not due and not sent:
-                    if not any(c == y for y in new):
-                        new.append(c)
+            due = (now - ref >= rt)
             if sent:
                 sym.cover("retransmit")
-            if not new:
-                if sent:
-                    sym.fail("C38/process/retransmit-before-redo-interval")
-                else:
-                    sym.fail("C38/process/no-retransmit-after-redo-interval")
-            cands = new
+                sym.check(due, "C38/process/retransmit-before-redo-interval")
+                if now - ref > rt:
+                    sym.cover("late-retransmit")
+                ref = now
+            else:
+                sym.check(not due, "C38/process/no-retransmit-after-redo-interval")
+                if k > 0 and now == prev_call:
+                    sym.cover("same-stamp-call")
+        prev_call = now
     sym.cover("done")
     return True
 
@@ -222,7 +219,7 @@ def obligations(tier):
                       bounds=dict(timeout=[0, CMAX], redoTimout=[0, CMAX], combos="absent/given x absent/given")))
     for kind in ("Exchange", "Exchanger"):
         for route in ("args", "class", "defaults"):
-            covers = ["done", "retransmit", "timed-out"]
+            covers = ["done", "retransmit", "late-retransmit", "same-stamp-call", "timed-out"]
             if route != "defaults":
                 covers.append("timeout-zero")
             for resend in (False, True):
